@@ -496,7 +496,7 @@ func C16(c *core.Ctx) {
 	}
 	c16Static(c)
 	// run-time side: fresh storage, nil stays nil, isolation after the source is overwritten
-	gxCommon(c, "GenExecTraceC16.cfg", "C16", func(r gxRun) bool {
+	gxCommon(c, "GenExecTraceC16.cfg", "C16", true, func(r gxRun) bool {
 		ks, _ := r.begin["kinds"].([]any)
 		for _, k := range ks {
 			if s, _ := k.(string); strings.HasPrefix(s, "sl") {
